@@ -54,7 +54,8 @@ theorem extend_FT (f m : Nat) (h : 1 ≤ m) : extend f (FT m) = FT (m + f) := by
 theorem factorial_FT (m n : Nat) (hm : 1 ≤ m) (hn : n ≤ 170) :
     factorial (FT m) n = (.ok ((n ! : Nat) : Rat), FT (max m (n + 1))) := by
   unfold factorial
-  rw [if_neg (by omega), FT_length]
+  -- the bound of the code (`K.factMax`, read from the source) is the 170 of the statement
+  rw [if_neg (show ¬ n > K.factMax by simp only [K.factMax]; omega), FT_length]
   by_cases h : n < m
   · rw [if_pos h, FT_getD m n h, Nat.max_eq_left (by omega)]
   · rw [if_neg h]
